@@ -99,11 +99,8 @@ func (r *scriptReader) Read(p []byte) (int, error) {
 	copy(p, r.payload[:n])
 	r.payload = r.payload[n:]
 	r.handed += n
-	ec := rs.err
-	if n == 0 && ec == 0 {
-		ec = 1
-	}
-	return n, errOfCode(ec)
+	// a response (0, nil) is passed on as it is: "nothing happened" (io.Reader); ReadFrom calls again
+	return n, errOfCode(rs.err)
 }
 
 // errName maps errors of the module to the canonical enum of the protocol.
